@@ -45,13 +45,15 @@ def _is_registered_param(obj, name):
 
 def _setattr_keep_slot(obj, name, val):
     # A plain tensor cannot be assigned to the name of a registered parameter.
-    # Shadow the parameter with a plain attribute and keep its slot registered
-    # (as None), so that assigning a Parameter to the name later puts it back
-    # at its original position in the module's parameters.
+    # Put it into the parameter's slot directly, the way torch's own temporary
+    # substitution (torch.func.functional_call) does: the slot keeps its position,
+    # so that assigning a Parameter to the name later puts it back where it was,
+    # and whoever substituted first (xitorch or torch) finds its tensors in the
+    # same place when it restores.
     if _is_registered_param(obj, name) and isinstance(val, torch.Tensor) and \
             not isinstance(val, torch.nn.Parameter):
-        obj._parameters[name] = None
-        obj.__dict__[name] = val
+        obj.__dict__.pop(name, None)
+        obj._parameters[name] = val
     else:
         setattr(obj, name, val)
 
